@@ -299,12 +299,14 @@ func runC01(c *kit.Ctx) {
 		rpcParam := paramOfType(gr, "/hrpc.Call", 0)
 		res := kit.Calls(gr, kit.M("", "*client", "getRegionForRpc"))
 		sets := kit.Calls(gr, hrpcCall+"SetRegion")
-		if len(res) != 1 || len(sets) != 1 || rpcParam == nil {
-			c.Unk(gr, "shape", gr.Pos(), "getRegionAndClientForRPC no longer has one resolution and one SetRegion")
+		if len(res) != 1 || len(sets) == 0 || rpcParam == nil {
+			c.Unk(gr, "shape", gr.Pos(), "getRegionAndClientForRPC no longer has one resolution and a SetRegion")
 		} else {
 			reg := kit.ExtractOf(res[0].Value(), 0)
-			good := res[0].Common().Args[2] == ssa.Value(rpcParam) && sets[0].Common().Value == ssa.Value(rpcParam) && kit.Same(sets[0].Common().Args[0], reg)
-			c.Check(good, gr, "stamp-resolved-region", sets[0].Pos(), "rpc.SetRegion(reg) with reg = getRegionForRpc(ctx, rpc) for the same rpc", "the region stamped on the call is not the one resolved for it")
+			for _, set := range sets {
+				good := res[0].Common().Args[2] == ssa.Value(rpcParam) && set.Common().Value == ssa.Value(rpcParam) && kit.Same(set.Common().Args[0], reg)
+				c.Check(good, gr, "stamp-resolved-region", set.Pos(), "rpc.SetRegion(reg) with reg = getRegionForRpc(ctx, rpc) for the same rpc", "the region stamped on the call is not the one resolved for it")
+			}
 			kit.Instrs(gr, func(in ssa.Instruction) {
 				r, ok := in.(*ssa.Return)
 				if !ok {
@@ -325,7 +327,13 @@ func runC01(c *kit.Ctx) {
 						same = false
 					}
 				}
-				c.Check(same && kit.Dominates(sets[0].(ssa.Instruction), r), gr, "client-of-stamped-region", r.Pos(), "the connection returned is Client() of the region stamped on the call, stamped before the return", "the connection returned belongs to another region than the one stamped on the call (or the call is not stamped on this path)")
+				stamped := false
+				for _, set := range sets {
+					if kit.Dominates(set.(ssa.Instruction), r) {
+						stamped = true
+					}
+				}
+				c.Check(same && stamped, gr, "client-of-stamped-region", r.Pos(), "the connection returned is Client() of the region stamped on the call, stamped before the return", "the connection returned belongs to another region than the one stamped on the call (or the call is not stamped on this path)")
 			})
 		}
 	}
